@@ -29,7 +29,7 @@ RULE = ('seeded generator over {routine x rdm grouping (singleton/pairs/giant/fe
 ASSUMPTIONS = ['numpy global RNG is the only random source of the routines (asserted: every call records >=1 draw)']
 REQUIRED = ['check:bootstrap_sample', 'check:bootstrap_sample_rdm', 'check:bootstrap_sample_pattern',
             'check:subsample', 'check:subsample_pattern', 'check:prediction_alignment', 'check:uniformity',
-            'rng_draws_observed', 'samples_with_repeats', 'nan_entries_checked']
+            'rng_draws_observed', 'samples_with_repeats', 'nan_entries_checked', 'source_reordered_between_draws']
 REACH = ['bootstrap_sample', 'bootstrap_sample_rdm', 'bootstrap_sample_pattern', 'RDMs.subsample',
          'RDMs.subsample_pattern', 'add_pattern_index']
 FAIL_KEYS = ['routine', 'rdm_grouping', 'pattern_grouping', 'labels', 'what']
@@ -255,6 +255,34 @@ def run_config(ctx, tap):
                 if [int(v) for v in ps.pattern_descriptors['puid']] != \
                         [int(v) for v in sample.pattern_descriptors['puid']]:
                     ctx.fail('prediction_alignment', sig, 'prediction order differs from sample order', w2())
+        # --- the source is a live object: between two draws the user may reorder it in place (documented in-place
+        # operations).  Later samples must be drawn from the object as it is *now* (unique ids tell which condition
+        # sits where; the expected values are looked up by id, never by position)
+        if d < n_draws - 1 and rng.integers(3) == 0:
+            old_puid = list(meta['puid'])
+            how = gen.pick(rng, ['reorder', 'sort_by'])
+            try:
+                if how == 'reorder':
+                    src.reorder([int(i) for i in rng.permutation(meta['n_cond'])])
+                else:
+                    src.sort_by(pextra='alpha')
+            except Exception as exc:
+                ctx.notes.append(f'in-place {how} of the source raised {exc!r}')
+                return
+            new_puid = [int(v) for v in src.pattern_descriptors['puid']]
+            if sorted(new_puid) != sorted(old_puid):
+                ctx.notes.append('in-place reorder changed the set of condition ids (C10 territory)')
+                return
+            perm = [old_puid.index(u) for u in new_puid]
+            meta['puid'] = new_puid
+            meta['pgrp'] = [meta['pgrp'][i] for i in perm]
+            meta['pindex'] = [int(v) for v in src.pattern_descriptors['index']]
+            wit0 = dict(wit0, puid=meta['puid'], pgrp=meta['pgrp'], reordered_in_place=how)
+            sig0 = dict(sig0, source_reordered=True)
+            pred = RDMs(np.arange(src.dissimilarities.shape[1], dtype=float).reshape(1, -1) + 1,
+                        pattern_descriptors={k: list(v) for k, v in src.pattern_descriptors.items()})
+            before = src.dissimilarities.copy()
+            ctx.count('source_reordered_between_draws')
     # --- direct subsample / subsample_pattern with explicit values (list / array / scalar)
     rvals = sorted(set(ref._key(v) for v in src.rdm_descriptors[rdm_by]), key=str)
     pvals = sorted(set(ref._key(v) for v in src.pattern_descriptors[pat_by]), key=str)
